@@ -60,10 +60,11 @@ theorem pwdOthers_snd (m : M) (w : WriteJob) : (pwdOthers m w).2 = m.2 := by
 theorem pwdSet_snd (m : M) (w : WriteJob) (b : List Bool) : (pwdSet m w b).2 = m.2 := by
   unfold pwdSet; dsimp only; split <;> simp
 
-/-- What `handlePieceWriteDone` sends: interest updates, and `have:piece` only on the verified path. -/
+/-- What `handlePieceWriteDone` sends: interest updates, and `have:piece` only on the verified path of a result
+that is still current. -/
 theorem handlePieceWriteDone_outs (m : M) (w : WriteJob) (e : Bool) :
     ∀ o ∈ (handlePieceWriteDone m w e).2, o ∈ m.2 ∨ IsInterest o.msg ∨
-      (o.msg = haveMsg w.piece ∧ w.good = true ∧ e = false) := by
+      (o.msg = haveMsg w.piece ∧ w.good = true ∧ e = false ∧ w.gen = m.1.gen ∧ m.1.loaded = true) := by
   rw [handlePieceWriteDone_eq]
   dsimp only
   split
@@ -71,29 +72,47 @@ theorem handlePieceWriteDone_outs (m : M) (w : WriteJob) (e : Bool) :
   · next hg =>
     split
     · intro o ho; left; simpa [pwdReset] using ho
-    · next he =>
+    · next hst =>
+      simp only [Bool.or_eq_true, ne_eq, decide_eq_true_eq, Bool.not_eq_true', not_or, Decidable.not_not,
+        Bool.not_eq_false] at hst
       split
-      · intro o ho; left; simpa [pwdReset, pwdDone] using ho
-      · intro o ho
-        unfold pwdOk at ho
-        rw [pwdFinish_snd] at ho
-        rcases pwdHaves_outs _ w o ho with h | h | h
-        · left; simpa [pwdOthers_snd, pwdSet_snd, pwdReset, pwdDone] using h
-        · exact Or.inr (Or.inl h)
-        · exact Or.inr (Or.inr ⟨h, by simpa using hg, by simpa using he⟩)
+      · intro o ho; left; simpa [pwdReset] using ho
+      · next he =>
+        split
+        · intro o ho; left; simpa [pwdReset, pwdDone] using ho
+        · intro o ho
+          unfold pwdOk at ho
+          rw [pwdFinish_snd] at ho
+          rcases pwdHaves_outs _ w o ho with h | h | h
+          · left; simpa [pwdOthers_snd, pwdSet_snd, pwdReset, pwdDone] using h
+          · exact Or.inr (Or.inl h)
+          · exact Or.inr (Or.inr ⟨h, by simpa using hg, by simpa using he, by simpa using hst.1, by simpa using hst.2⟩)
 
-/-- `writerRun` is `handlePieceWriteDone` on a state in which, on the verified path, the piece is good
-(for a padding-only piece the job counts as verified only if the recorded hash is the hash of zeroes). -/
-theorem writerRun_split (m : M) (w : WriteJob) (h : Sound0 m.1) :
-    ∃ (m' : M) (w' : WriteJob) (e : Bool), writerRun m w = handlePieceWriteDone m' w' e ∧ m'.2 = m.2 ∧
-      w'.piece = w.piece ∧ (w'.good = true → e = false → m'.1.diskOKi w'.piece = true) := by
+/-- A `have` sent by `handlePieceWriteDone` names a piece whose verified bytes are on disk, provided a good,
+current, error-free result means that. -/
+theorem handlePieceWriteDone_haves (m : M) (w : WriteJob) (e : Bool)
+    (hok : w.good = true → e = false → w.gen = m.1.gen → m.1.loaded = true → m.1.diskOKi w.piece = true) :
+    ∀ o ∈ (handlePieceWriteDone m w e).2, o ∈ m.2 ∨
+      ∀ i, o.msg = haveMsg i → (handlePieceWriteDone m w e).1.diskOKi i = true := by
+  intro o ho
+  rcases handlePieceWriteDone_outs m w e o ho with h' | h' | ⟨h1, hg, he, h3, h4⟩
+  · exact Or.inl h'
+  · exact Or.inr (fun i hi => absurd hi (h'.not_have i))
+  · refine Or.inr (fun i hi => ?_)
+    have : i = w.piece := haveMsg_inj (hi.symm.trans h1)
+    subst this
+    exact diskOKi_mono (handlePieceWriteDone_adv m w e hok).cfg (handlePieceWriteDone_adv m w e hok).bad _ (hok hg he h3 h4)
+
+/-- **A `have` sent on completion of a write names a piece whose verified bytes are on disk.** -/
+theorem writerRun_haves (m : M) (w : WriteJob) (h : Sound0 m.1) :
+    ∀ o ∈ (writerRun m w).2, o ∈ m.2 ∨ ∀ i, o.msg = haveMsg i → (writerRun m w).1.diskOKi i = true := by
   unfold writerRun
   split
-  · next hg => exact ⟨m, w, false, rfl, rfl, rfl, fun hg' => by simp [hg'] at hg⟩
+  · next hg => exact handlePieceWriteDone_haves m w false (fun hg' => by simp [hg'] at hg)
   · dsimp only
     split
     · next hsecs =>
-      refine ⟨m, _, false, rfl, rfl, rfl, fun hg _ => diskOKi_of_no_data m.1 h.bad _ (fun sc hsc => ?_) ?_⟩
+      refine handlePieceWriteDone_haves m _ false fun hg _ _ _ => diskOKi_of_no_data m.1 h.bad _ (fun sc hsc => ?_) ?_
       · have : sc ∉ (m.1.cfg.sections w.piece).filter fun sc => !(m.1.cfg.fpads.getD sc.file false) := by
           rw [hsecs]; exact List.not_mem_nil
         simp only [List.mem_filter, hsc, true_and] at this
@@ -101,26 +120,24 @@ theorem writerRun_split (m : M) (w : WriteJob) (h : Sound0 m.1) :
         simp [Cfg.isData, this]
       · simp only [Bool.and_eq_true] at hg
         exact hg.2
-    · split
-      · exact ⟨_, w, true, rfl, by simp, rfl, fun _ h => by cases h⟩
+    · next sc l hsecs =>
+      split
+      · intro o ho
+        rcases handlePieceWriteDone_haves _ w true (fun _ h => by cases h) o ho with h' | h'
+        · exact Or.inl (by simpa using h')
+        · exact Or.inr h'
       · split
-        · exact ⟨_, w, true, rfl, by simp, rfl, fun _ h => by cases h⟩
-        · have hpad : m.1.cfg.padOK w.piece = true := padOK_of_stored (by rw [‹List.filter _ _ = _ :: _›]; simp)
-          exact ⟨_, w, false, rfl, by simp, rfl, fun _ _ => by simp [St.diskOKi, hpad]⟩
-
-/-- **A `have` sent on completion of a write names a piece whose verified bytes are on disk.** -/
-theorem writerRun_haves (m : M) (w : WriteJob) (h : Sound0 m.1) :
-    ∀ o ∈ (writerRun m w).2, o ∈ m.2 ∨ ∀ i, o.msg = haveMsg i → (writerRun m w).1.diskOKi i = true := by
-  intro o ho
-  obtain ⟨m', w', e, heq, h2, _, hok⟩ := writerRun_split m w h
-  rw [heq] at ho ⊢
-  rcases handlePieceWriteDone_outs m' w' e o ho with h' | h' | ⟨h1, hg, he⟩
-  · exact Or.inl (h2 ▸ h')
-  · exact Or.inr (fun i hi => absurd hi (h'.not_have i))
-  · refine Or.inr (fun i hi => ?_)
-    have : i = w'.piece := haveMsg_inj (hi.symm.trans h1)
-    subst this
-    exact diskOKi_mono (handlePieceWriteDone_adv m' w' e hok).cfg (handlePieceWriteDone_adv m' w' e hok).bad _ (hok hg he)
+        · intro o ho
+          rcases handlePieceWriteDone_haves _ w true (fun _ h => by cases h) o ho with h' | h'
+          · exact Or.inl (by simpa using h')
+          · exact Or.inr h'
+        · split
+          · intro o ho; exact Or.inl (by simpa using ho)
+          · intro o ho
+            rcases handlePieceWriteDone_haves _ w false
+              (fun _ _ _ _ => written_diskOKi m.1 w.piece sc l hsecs _ (by simp) (by simp)) o ho with h' | h'
+            · exact Or.inl (by simpa using h')
+            · exact Or.inr h'
 
 /-- **The bitfield a new peer is sent is the client's bitfield**: `haveall` only if every bit is set,
 `havenone` only if none is, otherwise the bitfield itself — so under `BitsSound` it names only verified
